@@ -179,8 +179,55 @@ def runRd (host path rawq actsS impl : String) : Ans :=
              else if impl.startsWith "rej:" then "FAIL:documented-rejected-redirect" else "FAIL:redirect-effect"
     { model := m, verdict := v, tags := ["rd", reprStr c, "nt"] }
 
+/-- the values the handlers must produce for the fixed request state of the harness (`execHv`): the documented meaning
+    of each variable evaluated on that state; variables missing here (added to the source later) are not value-checked -/
+def hvState : List (String × String) :=
+  [("bfe_client_ip", "1.2.3.4"), ("bfe_cip", "1.2.3.4"), ("bfe_client_port", "5678"), ("bfe_request_host", "example.org"),
+   ("bfe_session_id", "sid-1"), ("bfe_log_id", "log-7"), ("bfe_vip", "9.8.7.6"), ("bfe_bip", "unknown"), ("bfe_rip", "10.0.0.9"),
+   ("bfe_server_name", "HOSTNAME"), ("bfe_cluster", "cl1"),
+   ("bfe_backend_info", "ClusterName:cl1,SubClusterName:sub1,BackendName:b1(10.1.1.1)"),
+   ("bfe_ssl_resume", "R"), ("bfe_ssl_cipher", "TLS_CIPHER_SUITE_beef"), ("bfe_ssl_version", "TLS_VERSION_7777"),
+   ("bfe_ssl_ja3_raw", "771,4865-4866,0-23,29-23,0"), ("bfe_ssl_ja3_hash", "e7d705a3286e19ea42f587b344ee6865"),
+   ("bfe_protocol", "h2"),
+   ("client_cert_serial_number", ""), ("client_cert_subject_title", ""), ("client_cert_subject_common_name", ""),
+   ("client_cert_subject_organization", ""), ("client_cert_subject_organizational_unit", ""),
+   ("client_cert_subject_province", ""), ("client_cert_subject_country", ""), ("client_cert_subject_locality", ""),
+   ("bfe_client_geo_country_iso_code", ""), ("bfe_client_geo_subdivision_iso_code", ""), ("bfe_client_geo_city_name", ""),
+   ("bfe_client_geo_latitude", ""), ("bfe_client_geo_longitude", "")]
+
+/-- `hv` ops: one mod_header SET/ADD whose value is a `%variable` template -/
+def runHv (cmd name tmplS impl : String) : Ans :=
+  let tmpl : Str := if tmplS == "~" then [] else tmplS.toList
+  let vars := C49.headerVariables
+  let pieces := splitTemplate tmpl
+  let refs := pieces.filterMap varRef
+  let known := refs.all fun n => vars.contains (sOf n)
+  let valued := refs.all fun n => (hvState.find? (·.1 == sOf n)).isSome
+  let tags := ["hv"] ++ (if refs.isEmpty then ["no-var"] else ["nt"]) ++ (if refs.length > 1 then ["multi-var"] else []) ++
+    (if pieces.length > 1 && !refs.isEmpty then ["embedded"] else []) ++
+    (if pieces.any (fun p => ['%', '%'].isPrefixOf p) then ["escaped"] else []) ++
+    (if refs.any (fun n => n.any Char.isDigit) then ["digit-name"] else [])
+  match headerCheck cmd [name.toList, tmpl] with
+  | .error e => { model := "rej:" ++ e, verdict := "ok", tags := tags ++ ["rej-" ++ e] }
+  | .ok _ =>
+    if !templateLoads vars tmpl then
+      -- a reference to something that is not in the source table: refusing it is right
+      { model := "rej:var", verdict := if known && impl.startsWith "rej:" then "FAIL:documented-variable-rejected" else "ok",
+        tags := tags ++ ["rej-var"] }
+    else
+      let value (n : Str) : Option Str :=
+        if vars.contains (sOf n) then some (((hvState.find? (·.1 == sOf n)).map (·.2.toList)).getD ['?']) else none
+      let v := expandTemplate value tmpl
+      let m := "ok val=" ++ (if v.isEmpty then "-" else sOf v)
+      let verdict :=
+        if impl.startsWith "rej:" then "FAIL:documented-variable-rejected"   -- only variables of the table are used
+        else if !valued then "ok"
+        else if impl == m then "ok" else "FAIL:variable-expansion"
+      { model := m, verdict := verdict, tags := tags }
+
 def run (op impl : String) : Ans :=
   match op.splitOn " " with
+  | ["hv", _, cmd, name, tmpl] => runHv cmd name tmpl impl
   | ["hd", _, hdrs, actsS] => runHd hdrs actsS impl
   | ["rd", host, path, rawq, actsS] => runRd host path rawq actsS impl
   | [loader, host, path, rawq, hdrs, actsS] =>
